@@ -2,5 +2,5 @@
 import threadpool
 TUS = threadpool.TUS
 def run(facts, rep, tier):
-    threadpool.emit(facts, rep, ['TP.1', 'TP.2', 'TP.3', 'TP.4', 'TP.5', 'TP.6c', 'TP.6d', 'TP.7', 'TP.10'],
-                    {'TP.1': 6, 'TP.2': 2, 'TP.3': 1, 'TP.4': 2, 'TP.5': 4, 'TP.6c': 2, 'TP.6d': 1, 'TP.7': 4, 'TP.10': 1})
+    threadpool.emit(facts, rep, ['TP.1', 'TP.2', 'TP.3', 'TP.4', 'TP.5', 'TP.6c', 'TP.6d', 'TP.7', 'TP.8', 'TP.10'],
+                    {'TP.1': 6, 'TP.2': 2, 'TP.3': 1, 'TP.4': 2, 'TP.5': 4, 'TP.6c': 2, 'TP.6d': 1, 'TP.7': 4, 'TP.8': 2, 'TP.10': 1})
